@@ -5,7 +5,6 @@ import (
 	"fmt"
 	"math"
 	"math/rand"
-	"sort"
 	"strings"
 	"unicode/utf8"
 
@@ -43,14 +42,59 @@ func newWorld(seed int64) *world {
 		w.pubs = append(w.pubs, w.a.B(pub))
 		w.phex = append(w.phex, keys.PublicKeyHex(&k.PublicKey))
 	}
-	// string atoms of the keys are numbered in the order of the strings themselves: they are map
-	// keys, and the model sorts atoms by their number
-	sorted := append([]string{}, w.phex...)
-	sort.Strings(sorted)
-	for _, h := range sorted {
-		w.a.S(h)
+	// every spelling of every key is an atom (same numbering in the parent and in child processes)
+	for _, h := range w.phex {
+		for v := range spellNames {
+			w.a.S(spell(h, v))
+		}
 	}
 	return w
+}
+
+// Key spellings.  Every string below names the same public key: hex decoding is case-insensitive
+// (common.DecodeFromString skips the two prefix characters), maps are indexed by PubKeyString() = ToUpper.
+// 0 is the canonical form keys.PublicKeyHex writes; the others are what users type (peers.json, join
+// requests built by other tools).  They must survive every conversion unchanged: they are inside
+// signed and hashed objects.
+var spellNames = []string{"0X-upper", "0x-lower", "0X-lower", "0x-upper", "mixed"}
+
+func spell(hexKey string, v int) string {
+	body := hexKey[2:]
+	switch v {
+	case 1:
+		return "0x" + strings.ToLower(body)
+	case 2:
+		return "0X" + strings.ToLower(body)
+	case 3:
+		return "0x" + strings.ToUpper(body)
+	case 4:
+		b := []byte(strings.ToLower(body))
+		for i := 0; i < len(b); i += 3 {
+			b[i] = strings.ToUpper(string(b[i]))[0]
+		}
+		return "0x" + string(b)
+	}
+	return "0X" + strings.ToUpper(body)
+}
+
+// keySpelling: the canonical spelling half of the time, otherwise one of the alternatives
+func (w *world) keySpelling(rng *rand.Rand, i int) string {
+	v := 0
+	if rng.Intn(2) == 0 {
+		v = 1 + rng.Intn(len(spellNames)-1)
+	}
+	w.stats["key-spelling:"+spellNames[v]]++
+	return spell(w.phex[i], v)
+}
+
+// anyPeer: key i under some spelling, built with peers.NewPeer or as a struct literal (NewPeer only
+// normalises NetAddr and Moniker, and only when they are not valid UTF-8)
+func (w *world) anyPeer(rng *rand.Rand, i int, addr, moniker string) *peers.Peer {
+	k := w.keySpelling(rng, i)
+	if utf8.ValidString(moniker) && utf8.ValidString(addr) && rng.Intn(2) == 0 {
+		return peers.NewPeer(k, addr, moniker)
+	}
+	return rawPeer(k, addr, moniker)
 }
 
 // rawPeer builds a Peer with exactly these strings (peers.NewPeer normalises invalid UTF-8 to U+FFFD
@@ -177,7 +221,7 @@ var itxShapeNames = []string{"nil", "empty", "one", "many", "HOSTILE"}
 
 // an internal transaction about key k, signed by k (Event.Verify checks these signatures)
 func (w *world) itx(k int, strShape int) hg.InternalTransaction {
-	p := *rawPeer(w.phex[k], fmt.Sprintf("addr%d:%d", k, w.rng.Intn(9999)), w.strOf(strShape))
+	p := *w.anyPeer(w.rng, k, fmt.Sprintf("addr%d:%d", k, w.rng.Intn(9999)), w.strOf(strShape))
 	var t hg.InternalTransaction
 	if w.rng.Intn(3) == 0 {
 		t = hg.NewInternalTransactionLeave(p)
